@@ -280,6 +280,25 @@ fn in_domain_call(state: &NTree, model: &Model, op: &Op) -> bool {
             _ => {},
         }
     }
+    if let Op::Copy(s, _) | Op::CopyB(s, _, _, _) | Op::MoveP(s, _) = op {
+        if let Some(Ok(sa)) = model.abs(s) {
+            // the sandbox root has a real name and a real parent, the virtual "/" has neither
+            if sa == "/" {
+                return false;
+            }
+            // copy under follow of a tree that itself contains links: recorded finding of C09 (what is behind such
+            // a link is copied under the target's path; the two backends then meet different collisions)
+            if matches!(op, Op::CopyB(_, _, _, true)) {
+                let sroot = match state.nodes.get(&sa).map(|n| n.kind.clone()) {
+                    Some(NKind::Link { target, .. }) => target,
+                    _ => sa.clone(),
+                };
+                if state.nodes.contains_key(&sroot) && state.subtree(&sroot).iter().any(|k| matches!(state.nodes[k].kind, NKind::Link { .. })) {
+                    return false;
+                }
+            }
+        }
+    }
     // a relative symlink target is resolved against the link's directory
     if let Op::Symlink(l, t) = op {
         if !t.starts_with('/') {
@@ -488,6 +507,17 @@ fn c02(ctx: &Ctx, rep: &mut Report) {
             }
             // follow the real state in virtual coordinates
             shadow.t = unmap_ntree(&tm, &root);
+            // the process cwd follows kernel semantics (it moves with a renamed directory and dangles once the
+            // directory is removed, even if a new one gets the same name); Memfs keeps a path. Once the two no
+            // longer name the same directory, relative paths mean different things: the history ends
+            let want = if shadow.t.cwd == "/" { root.clone() } else { format!("{}{}", root, shadow.t.cwd) };
+            match std::env::current_dir() {
+                Ok(p) if ps(&p) == want => {},
+                _ => {
+                    rep.count("histories_ended:process-cwd-moved-or-removed", 1);
+                    break;
+                },
+            }
         }
         rep.count("histories", 1);
     }
